@@ -256,7 +256,7 @@ func runC05(run *Run, seed int64, sc faultScn, rng *rand.Rand, stopWhen ...func(
 				dumps[cn.Name] = append(dumps[cn.Name], recString(&r)+" name="+r.Name)
 			}
 		}
-		key := classifyC05(ch, diffs, statesAtStop)
+		key := classifyC05(ch, diffs, statesAtStop, stop)
 		fail(key, "faults stopped at +%v with the live nodes' member lists connected, but after %v (4 x settle bound %v) views still differ from the live set: %+v", sc.TStop, time.Since(stop), settle, diffs)
 		o.Witness = map[string]any{"views_at_stop": viewsAtStop, "states_at_stop": statesAtStop, "dumps_at_end": dumps, "logs": ch.C.LogTails(8)}
 	}
@@ -269,7 +269,7 @@ func runC05(run *Run, seed int64, sc faultScn, rng *rand.Rand, stopWhen ...func(
 }
 
 // classifyC05 names the failure narrowly enough for the findings register.
-func classifyC05(ch *Chaos, diffs []viewDiff, statesAtStop map[string]map[string]string) string {
+func classifyC05(ch *Chaos, diffs []viewDiff, statesAtStop map[string]map[string]string, stopAt time.Time) string {
 	metaOnly := true
 	for _, d := range diffs {
 		if strings.Contains(d.Problem, "lists ") || strings.Contains(d.Problem, "suspects") {
@@ -316,7 +316,9 @@ func classifyC05(ch *Chaos, diffs []viewDiff, statesAtStop map[string]map[string
 		// final components at T_stop was a SUSPECT entry, held by a node that the other
 		// endpoint had itself already declared dead (or reaped). The holder's accusation is
 		// refuted, but the refutation is gossiped only to nodes the refuter still lists.
-		bridges, suspectOnly := 0, true
+		bridges, suspectOnly, inflight := 0, true, 0
+		cf := live[0].Node.Conf
+		probeWindow := time.Duration(cf.AwarenessMaxMultiplier) * cf.ProbeInterval
 		for _, x := range live {
 			for _, y := range live {
 				if x == y || comp[x.Name] == comp[y.Name] {
@@ -329,13 +331,31 @@ func classifyC05(ch *Chaos, diffs []viewDiff, statesAtStop map[string]map[string
 				bridges++
 				back, okb := statesAtStop[y.Name][x.Name]
 				yDropped := !okb || back == "dead" || back == "left"
+				if st == "alive" && yDropped {
+					// Second registered history: the one-way entry was still alive at T_stop, but a probe of
+					// it that the holder had started while the faults were on failed afterwards (the
+					// suspicion is logged within one maximal probe interval of T_stop).
+					hit := false
+					for _, ln := range x.Node.Log.Grep(0, "Suspect "+y.Name+" has failed") {
+						if ln.At.After(stopAt) && ln.At.Sub(stopAt) <= probeWindow {
+							hit = true
+						}
+					}
+					if hit {
+						inflight++
+						continue
+					}
+				}
 				if st != "suspect" || !yDropped {
 					suspectOnly = false
 				}
 			}
 		}
-		if bridges > 0 && suspectOnly {
+		if bridges > 0 && suspectOnly && inflight == 0 {
 			return "bridge-only-suspect"
+		}
+		if bridges > 0 && suspectOnly && inflight > 0 {
+			return "bridge-lost-to-inflight-probe"
 		}
 		return "not-converged/split"
 	}
@@ -358,7 +378,7 @@ func TestC05(t *testing.T) {
 		"Bounded-progress restatement in virtual time. PRNG fault scripts on real clusters of 3-10 (thorough 3-20) nodes: global loss windows 10-100%, duplication, delays up to 3 s (reordering), timed partitions and one-way blocks, crashes and hung processes, same-address restarts 0.2-50 s later (incarnation restarts at 1, new metadata), take-over of a crashed node's address by a differently named node, graceful leaves, metadata updates; fault phase 30-120 s; config matrix. At T_stop faults cease; if the live nodes' Members() graph is connected the scenario is judged: within T_settle = B(C03) + 40(n-1) push/pull intervals + GossipToTheDeadTime (re-checked until 4 x T_settle) every live node must list exactly the live nodes, each with the metadata its owner's delegate currently returns, suspect nobody who is live, and list no crashed or departed node. The C02/C07 monitors run at every poll. Cell = (fault kinds present, n bucket, restart/leave/update presence, judged|skipped).")
 	defer run.Finish()
 	run.Assume("connectivity precondition evaluated exactly as stated (Members() at T_stop, suspects included)", "T_settle sized so that a random-peer anti-entropy edge is missed with probability < e^-40; failures are re-checked at 4 x T_settle before judging")
-	n := run.Pick(64, 3200)
+	n := run.Pick(128, 6400)
 	judged, skipped := 0, 0
 	for i := 0; i < n; i++ {
 		if !run.Mine(i) {
